@@ -172,3 +172,52 @@ pub fn ints_in(s: &str) -> Vec<u64> {
 pub fn step_cap(len: usize) -> usize {
     5 * len + 16
 }
+
+/// Other ways of consuming the same list-shaped accessor: nth() on fresh iterators, repeated nth(1) on one
+/// iterator, skip, step_by, count, last, two interleaved iterators, size_hint.  The specification requires all
+/// of them to describe the same list (an iterator must not depend on HOW it is driven).
+pub fn alt_iter<I: Iterator>(mk: impl Fn() -> I, cap: usize, f: impl Fn(I::Item) -> Value) -> Value {
+    let n = mk().take(cap + 1).count();
+    let mut idx: Vec<usize> = if n <= 40 { (0..n).collect() } else { vec![0, 1, 2, 16, 17, n / 2, n - 2, n - 1] };
+    idx.retain(|i| *i < n);
+    let nth: Vec<Value> = idx.iter().map(|&i| match mk().nth(i) {
+        Some(x) => json!([i, [f(x)]]),
+        None => json!([i, []]),
+    }).collect();
+    let nth_end = mk().nth(n).is_none();
+    let mut nth_seq = vec![];
+    {
+        let mut it = mk();
+        while nth_seq.len() <= cap {
+            match it.nth(1) {
+                Some(x) => nth_seq.push(f(x)),
+                None => break,
+            }
+        }
+    }
+    let skip: Vec<Value> = mk().skip(n / 2).take(cap + 1).map(&f).collect();
+    let step: Vec<Value> = mk().step_by(3).take(cap + 1).map(&f).collect();
+    let last: Vec<Value> = mk().take(cap + 1).last().map(&f).into_iter().collect();
+    let (mut a, mut b) = (vec![], vec![]);
+    {
+        let (mut ia, mut ib) = (mk(), mk());
+        let (mut da, mut db) = (false, false);
+        while !(da && db) && a.len() + b.len() <= 2 * cap + 2 {
+            if !da {
+                match ia.next() {
+                    Some(x) => a.push(f(x)),
+                    None => da = true,
+                }
+            }
+            if !db {
+                match ib.next() {
+                    Some(x) => b.push(f(x)),
+                    None => db = true,
+                }
+            }
+        }
+    }
+    let (lo, hi) = mk().size_hint();
+    json!({"n": n, "nth": nth, "nth_end": nth_end, "nth_seq": nth_seq, "skip": skip, "step": step, "last": last,
+           "a": a, "b": b, "hint": [lo, hi.map(|h| h as i64).unwrap_or(-1)]})
+}
